@@ -22,13 +22,15 @@
 (*        "d"  DelayAdjustedSTDPD / DelayAdjustedKernelSTDPD (delay:       *)
 (*             causal branch carries eta_minus, tau_minus),                *)
 (*        "mw", "md"  the reward-modulated variants,                       *)
-(*        "k"  KernelSTDP (no adjustment; only offered delay 0).           *)
+(*        "k"  KernelSTDP (no adjustment; only offered delay 0),           *)
+(*        "ka" KernelSTDP on a connection with a constant delay of q steps *)
+(*             (presynaptic event = arrival; both trainer modes).          *)
 (* Values are STDPSym values: tag "plus" with the exponent field xf (base  *)
 (* exp(-tick/tau_plus)), tag "minus" with yf (base exp(-tick/tau_minus)).  *)
 (***************************************************************************)
 EXTENDS STDPSym
 
-DARules == {"w", "d", "mw", "md", "k"}
+DARules == {"w", "d", "mw", "md", "k", "ka"}
 
 MaxS0(S) == IF S = {} THEN 0 ELSE CHOOSE m \in S : \A u \in S : u <= m
 \* step of the most recent spike up to and including step t (0: none yet)
@@ -70,6 +72,22 @@ AbsNear(DT, rule, x, y, t, d, r) ==
    THEN {Modulate(rule, KernelOther(rule, 0), r)} ELSE {})
 
 (***************************************************************************)
+(* KernelSTDP on a connection with a (constant) delay of q steps, rule     *)
+(* "ka": nothing is adjusted, the presynaptic event of the documented      *)
+(* formula is the ARRIVAL of a spike at the synapse (step of emission + q),*)
+(* so a spike still in flight does not count yet.                          *)
+(***************************************************************************)
+Shift(x, q) == [s \in 1..Len(x) |-> IF s - q >= 1 THEN x[s - q] ELSE 0]
+ArrLast(x, t, q) == IF t - q >= 1 THEN LastEv(x, t - q) ELSE 0      \* emission step of the last ARRIVED spike
+AbsArrDefined(x, y, t, q) == ArrLast(x, t, q) > 0 /\ LastEv(y, t) > 0
+AbsArrTDelta(DT, x, y, t, q) == (LastEv(y, t) - ArrLast(x, t, q) - q) * DT
+AbsDWArr(DT, x, y, t, q) ==
+  IF ~AbsArrDefined(x, y, t, q) THEN Zero ELSE Kernel("k", AbsArrTDelta(DT, x, y, t, q))
+AbsNearArr(DT, x, y, t, q) ==
+  {AbsDWArr(DT, x, y, t, q)} \cup
+  (IF AbsArrDefined(x, y, t, q) /\ AbsArrTDelta(DT, x, y, t, q) = 0 THEN {KernelOther("k", 0)} ELSE {})
+
+(***************************************************************************)
 (* Mech                                                                    *)
 (***************************************************************************)
 Undef == -1
@@ -92,6 +110,34 @@ MStep(DT, rule, m, op) ==
       b |-> IF rule \in {"mw", "md"} THEN TimesGamma(b) ELSE b]
 
 MechDW(out, r) == Scale(Plus(out.a, out.b), r)
+
+(***************************************************************************)
+(* Mech of rule "ka", the two modes of the trainer:                        *)
+(*   delayed = FALSE  the event fold observes connection.synspike, i.e.    *)
+(*                    the spike emitted q steps ago (xarr)                 *)
+(*   delayed = TRUE   the event fold observes the raw spikes, keeps its    *)
+(*                    last values in a record and reads the value it had   *)
+(*                    q steps ago (undefined while that slot was never     *)
+(*                    written)                                             *)
+(* m = [earr, eraw, ring, epost]                                           *)
+(***************************************************************************)
+MArrInit == [earr |-> Undef, eraw |-> Undef, ring |-> <<>>, epost |-> Undef]
+
+MArrOut(e, epost) ==
+  LET nan == e = Undef \/ epost = Undef
+      td == e - epost
+  IN [a |-> IF nan \/ td < 0 THEN Zero ELSE TermPlus(AbsV(td)),
+      b |-> IF nan \/ td >= 0 THEN Zero ELSE TermMinus(AbsV(td))]
+
+MStepArr(DT, m, op, xarr, q) ==
+  LET earr == EvStep(DT, m.earr, xarr)
+      eraw == EvStep(DT, m.eraw, op.x)
+      ring == Append(m.ring, eraw)
+      seen == IF Len(ring) - q >= 1 THEN ring[Len(ring) - q] ELSE Undef
+      epost == EvStep(DT, m.epost, op.y)
+  IN [m |-> [earr |-> earr, eraw |-> eraw, ring |-> ring, epost |-> epost],
+      undelayed |-> MArrOut(earr, epost),
+      delayed |-> MArrOut(seen, epost)]
 
 \* routing: sa is the sign of the learning rate of the causal-branch term `a`,
 \* sb of the anti-causal term `b`; r the reward (1 for the two-factor rules)
